@@ -38,6 +38,77 @@ CHECKS['C12'] = dict(engine='stack', category='model_checking', design_ref='DESI
        'server after its caller got TimeoutError and that a discard naming the tag reaches the peer for requests already written '
        'to a still-open multiplexed connection; the code-shaped model places the deadline at every hop exhaustively.')
 
+def _mc(engine, ref, technique, text, note, category='model_checking'):
+  return dict(engine=engine, category=category, design_ref=ref, technique=technique, text=text, note=note)
+
+CHECKS['C08'] = _mc('transport', 'DESIGN.md 5/C08',
+  'TLC fault enumeration on code-shaped SerialTransport.tla / MuxTransport.tla (fault at every I/O step x in-flight set); real transports '
+  'driven over a simulated socket with a fault at every I/O operation index x kind; traces validated by TLC against TransportAbsTrace',
+  'TLC enumerates (operation x fault kind x in-flight requests) on the code-shaped transport models and checks fail-exactly-once, reports-Closed, '
+  'fault-signal and open-means-usable; the same clauses are evaluated by TLC on recorded runs of the real serial and ThriftMux transports with a '
+  'fault injected at every I/O operation index (exception, EOF, refusal, silence) with 0-3 requests in flight, plus seeded histories.',
+  'Trusted: SimNet fault model; requests whose reply the peer had already sent may complete either way; owner Close is not a failure; '
+  'probes are skipped while an environment fault is unobserved or a connect is pending.')
+CHECKS['C11'] = _mc('transport', 'DESIGN.md 5/C11',
+  'TLC exhaustive check of MuxTransport.tla (TagPool, tag map, send queue, timeouts, adversarial peer frames, max_tag scaled down); real ThriftMux '
+  'transport against an adversarial simulated peer; wire-level traces validated by TLC against TransportAbsTrace',
+  'Tag range / uniqueness / recycling are judged from frames decoded at the simulated peer only; TLC explores every interleaving of requests, '
+  'replies in any order, duplicates, unknown and reserved tags, timeouts before/after transmission on the model (tag space scaled to 5-6) and '
+  'validates thousands of recorded real-code histories incl. long request/reply runs for boundedness.',
+  'Trusted: peer codec; a stray frame naming a tag that the client allocates before processing the frame is indistinguishable from an answer '
+  '(allowance `stray` in TransportAbs, taint in the model); bound has slack for requests dropped before send.')
+CHECKS['C09'] = _mc('resurrect', 'DESIGN.md 5/C09',
+  'TLC check of code-shaped Resurrector.tla (retry loop, deferred fault signal, Close at any point); real ResurrectorSink over real pool/transports '
+  'and full clients over a simulated endpoint with scripted reachability over minutes of virtual time; traces validated by TLC against ResurrectAbsTrace',
+  'Fail-fast while the connection is known down, back-off gaps (>= initial, non-decreasing, growing below the cap, <= max), recovery within '
+  'max_wait_interval + slack once reachable under steady traffic, and no attempt after close are evaluated by TLC on every recorded run; the '
+  'model explores every placement of reachability flips, fault notifications and Close relative to the retry timer.',
+  'Trusted: unreachable = refused connects / unanswered pings + reset of established connections; down is ground truth (client observed a failed '
+  'attempt) made firm at the next quiescent point; slack 9.5 s covers a ThriftMux attempt whose ping was lost.')
+CHECKS['C13'] = _mc('muxwire', 'DESIGN.md 5/C13',
+  'TLA+ reference encoder + independent decoder (MuxWire.tla); TLC checks decode(encode)=id on a bounded domain and validates recorded (input, bytes) '
+  'pairs from the real serializer / header writer / header reader',
+  'Input-universal property of pure functions: TLC decides each recorded frame against the reference codec (every tag class, non-ASCII contexts, '
+  'deadlines, payloads) and checks the codec laws exhaustively over a bounded domain; not exhaustive over inputs.',
+  'Trusted: MuxWire.tla written from the mux protocol description; generators cover tag byte boundaries and 1-4 byte code points.', 'exploration')
+CHECKS['C15'] = _mc('kafkawire', 'DESIGN.md 5/C15',
+  'TLA+ reference Kafka v0 codec incl. CRC32 on 16-bit limbs (KafkaWire.tla); TLC checks round trips on a bounded domain and validates recorded '
+  'request bytes / decoded responses / correlation-id routing from the real code',
+  'Each recorded produce request is accepted iff sizes, CRC32, header fields equal the reference encoding; responses encoded by an independent broker '
+  'encoder must decode to what the spec decoder yields; replies must reach the request with the same correlation id.',
+  'Trusted: KafkaWire.tla written from the protocol guide; not exhaustive over inputs.', 'exploration')
+CHECKS['C14'] = _mc('thriftwire', 'DESIGN.md 5/C14',
+  'TLC enumerates all chunkings of reply streams on ReadAll.tla, each replayed into the real transport (projection compare); TBinaryWire.tla reference '
+  'codec + reply classification validated by TLC on recorded calls against the Thrift library Processor',
+  'Chunk-independence is model-checked (every chunking of streams up to 8/12 bytes) and replayed on the real readAll paths; codec agreement is a '
+  'three-way trace validation (scales bytes = spec encoding, library Processor decodes the same call, library reply bytes classify as the spec says).',
+  'Trusted: hand-written gen_py-style test interfaces; Thrift library as stated oracle; codec part is sampled, not exhaustive.')
+CHECKS['C20'] = _mc('proxy', 'DESIGN.md 5/C20',
+  'TLA+ reference functions (UriProxy.tla: user methods, proxy names, forwarding record, tcp/zk URI parsing) checked for self-consistency by TLC and '
+  'used by TLC to validate recorded (interface, call, URI) -> (dispatch record, endpoints) pairs from the real code',
+  'Generated interface classes (underscore decorations, inheritance, aliases, varied signatures) are called through real proxies over a recording '
+  'dispatcher and URIs are parsed by the real parser; TLC compares every record with the reference functions.',
+  'Trusted: conservative reading of "public method" (no leading underscore, not ending in __); inputs sampled.', 'exploration')
+CHECKS['C07'] = _mc('pool', 'DESIGN.md 5/C07',
+  'TLC exhaustive check of code-shaped WatermarkPool.tla (size, cache, waiters, spawned _ProcessQueue tasks, timeouts while queued/lent, dead '
+  'connections); TLC behaviours replayed on the real pool (projection compare); real-code histories validated by TLC against PoolAbsTrace',
+  'TLC explores all arrival/completion/timeout/death orders for (min,max,queue) in {0,1}x{1,2}x{0,1,2} with 4 requests incl. two releases racing '
+  'for one waiter; the real WatermarkPoolSink is driven by TLC behaviours and by seeded + systematically enumerated histories, each ending in a '
+  'probe burst for leaked capacity, judged clause by clause by TLC.',
+  'Trusted: mock connection provider below the pool; closed pools are only held to closeFailsWaiters.')
+CHECKS['C18'] = _mc('varz', 'DESIGN.md 5/C18',
+  'TLC check of code-shaped Varz.tla (metric map keyed by Source with Python key semantics, reservoir, aggregation split at its yields); behaviours '
+  'replayed on the real VarzReceiver/VarzAggregator; recorded update sequences validated by TLC against VarzAbsTrace',
+  'Sum / last-gauge / one-series-per-equal-source / percentile bounds are decided by TLC on every recorded sequence of updates from fresh-but-equal '
+  'Source objects through the three recording APIs and an end-to-end dispatcher run.',
+  'Trusted: integer-valued samples; retained samples read from the reservoir attribute (falls back to all samples).')
+CHECKS['C19'] = _mc('zk', 'DESIGN.md 5/C19',
+  'TLC exhaustive check of code-shaped ZkServerSet.tla (znode tree, one-shot watches, DataWatch/ChildrenWatch recipes, worker queue); every transition of '
+  'a bounded state graph replayed on the real ServerSet over a fake ZooKeeper with the real kazoo recipes; histories validated by TLC against ZkAbsTrace',
+  'TLC explores all histories of child create/delete, path delete/re-create and request-serving orders (2-3 members) and the real ServerSet is '
+  'stepped through every transition of the bounded graph; consumer-visible joins/leaves are judged by TLC (agree, alternate, survivesErrors).',
+  'Trusted: FakeZK implements documented one-shot watch semantics; known finding C19-stale-children-watch (path re-created before the deletion was processed).')
+
 PENDING = {}
 
 ALL = ['C%02d' % i for i in range(1, 21)]
